@@ -415,7 +415,7 @@ func C13(e *Env) {
 		plans = append(plans, plan{[]spyfs.Fault{{Every: true, OpKind: "read", Kind: spyfs.FShort, K: 1}}, "every read returns 1 byte", "short-all", "read"})
 		plans = append(plans, plan{[]spyfs.Fault{{Every: true, OpKind: "close", Kind: spyfs.FEIO}}, "every close fails", "close-all", "close"})
 		rng := e.Rng(int64(len(sc.Name)) + 13)
-		for i := 0; i < e.Pick(20, 400) && K > 1; i++ {
+		for i := 0; i < e.Pick(20, 2500) && K > 1; i++ {
 			a, b := 1+rng.Intn(K), 1+rng.Intn(K)
 			kind2 := []string{spyfs.FEIO, spyfs.FShort, spyfs.FENOENT}[rng.Intn(3)]
 			if kind2 == spyfs.FENOENT && (b-1 >= len(log) || (log[b-1].Kind != "stat" && log[b-1].Kind != "fstat") || isKeyPath(log[b-1].Path)) {
